@@ -242,11 +242,11 @@ func TestMonitorHeartBeats(t *testing.T) {
 		if end.Op == "commit" && rapid.IntRange(0, 7).Draw(t, "park") != 0 {
 			// while the request is parked the owner keeps beating; optionally another client then reads the keys: the
 			// secondaries' own ttl (never refreshed) has run out by then, the heart-beaten primary is alive
-			nested := []*sim.Step{{Op: "sleep", Ms: 65}}
+			nested := []*sim.Step{{Op: "sleep", Ms: int64(rapid.IntRange(65, 110).Draw(t, "parked"))}}
 			if rapid.IntRange(0, 7).Draw(t, "reader") != 0 {
 				nested = append(nested, &sim.Step{Txn: 9, Op: "begin", Client: 1}, &sim.Step{Txn: 9, Op: "batchget", Keys: keys}, &sim.Step{Txn: 9, Op: "rollback"})
 			}
-			end.Faults = []sim.FaultSpec{{Type: rapid.SampledFrom([]string{"Prewrite", "Prewrite", "Commit"}).Draw(t, "ptype"), Index: rapid.IntRange(0, 1).Draw(t, "pidx"), Action: rapid.SampledFrom([]string{"gateBefore", "gateAfter"}).Draw(t, "pwhen"), Nested: &sim.Step{Op: "seq", Sub: nested}}}
+			end.Faults = []sim.FaultSpec{{Type: rapid.SampledFrom([]string{"Prewrite", "Prewrite", "Prewrite", "Commit"}).Draw(t, "ptype"), Index: rapid.SampledFrom([]int{0, 0, 0, 1}).Draw(t, "pidx"), Action: rapid.SampledFrom([]string{"gateBefore", "gateAfter", "gateAfter"}).Draw(t, "pwhen"), Nested: &sim.Step{Op: "seq", Sub: nested}}}
 		}
 		steps = append(steps, end, &sim.Step{Op: "sleep", Ms: 85})
 		res := prog.Run(backend, 1, false, true, keys, nil, steps, map[string]bool{})
